@@ -75,6 +75,10 @@ def views_jobs(tier, seed):
     for fam, n in ALL_FAMS:
         if tier == 'quick':
             jobs.append(TraceJob(SMALL, fam, shards=2 if n < 400 else 3, args=['--cases', n, '--extra', 'views,nobig'], label=fam + '-views@' + SMALL))
+            if fam in ('ple', 'elim', 'mul', 'trsm', 'solve'):
+                # wide views (rows of 6..11 words): some kernels only touch a last word when there are words to the right of a block
+                jobs.append(TraceJob(SMALL, fam, shards=1, args=['--cases', 48, '--maxdim', 700, '--tier', 'thorough', '--extra', 'views,nobig,nosweep', '--seed', 7 + seed],
+                                     label=fam + '-wideviews@' + SMALL))
         else:
             jobs.append(TraceJob(SMALL, fam, shards=8, args=['--cases', n * 6, '--extra', 'views,nobig'], label=fam + '-views@' + SMALL, timeout=3400))
             jobs.append(TraceJob(NOSSE, fam, shards=4, args=['--cases', n * 2, '--extra', 'views,nobig'], label=fam + '-views@' + NOSSE, timeout=3400))
@@ -384,7 +388,8 @@ PROPS = {
     'C13': alg(simple_jobs('rowops', 1200), mc=words_mc('MC_MzdWords_c13_w3')),
     'C17': alg(simple_jobs('obs', 1600), mc=words_mc('MC_MzdWords_c17_w2')),
     'C01': dict(level='model_checking', reasons=ALG_REASONS, jobs=c01_jobs,
-                mc=lambda tier: gf2_mc(tier) + [mcjob('MC_Strassen', workers=12), mcjob('MC_Strassen', 'MC_Strassen_wit_f01', workers=4, witness=True)],
+                mc=lambda tier: gf2_mc(tier) + [mcjob('MC_Strassen', workers=12), mcjob('MC_Strassen', 'MC_Strassen_wit_f01', workers=4, witness=True),
+                                                mcjob('MC_M4RM', 'MC_M4RM_quick' if tier == 'quick' else 'MC_M4RM', workers=12)],
                 assumptions=['TLC evaluates GF2.tla operators correctly (checked against declarative twins by MC_GF2)',
                              'the harness logs the raw memory of operands truthfully (memcmp snapshots)',
                              'contents at 64-bit word size are sampled (structured families + seeded random), not exhaustive']),
@@ -503,8 +508,17 @@ def run_property(prop, tier, seed):
             else:
                 res['violations'].append({'replay': v['replay'], 'detail': v['detail']})
     t = time.time()
+    def validate(jt):
+        (job, shard), tr = jt
+        try:
+            return vlib.run_tlc_trace(job, tr, rundir)
+        except Infra:
+            if job.tsan and job.races:
+                # a racy run may corrupt its own trace; the (repeated) race reports are the verdict for this job
+                return {'trace': tr, 'fails': [], 'crashes': [], 'done': [0, 0, 0], 'info': [], 'secs': 0, 'states': 0}
+            raise
     with ThreadPoolExecutor(max_workers=vlib.NCPU) as ex:
-        results = list(ex.map(lambda jt: vlib.run_tlc_trace(jt[0][0], jt[1], rundir), zip(pairs, traces)))
+        results = list(ex.map(validate, zip(pairs, traces)))
     log('[tlc] %d trace(s) validated in %.0fs' % (len(traces), time.time() - t))
     nev = 0
     sigs = set()
